@@ -17,7 +17,7 @@ CASE_TIMEOUT_S = 120.0   # a case is a block of up to 128 graphs x 2 orders x 3 
 
 
 def bounds(tier):
-    return {'max_vertices': 5 if tier == 'quick' else 6, 'plus_n7_upto': 0 if tier == 'quick' else (1 << 21),
+    return {'max_vertices': 6, 'plus_n7_upto': 0 if tier == 'quick' else (1 << 21),
             'methods': METHODS, 'vertex_orders': ['asc', 'desc']}
 
 
